@@ -198,6 +198,12 @@ def r_hdr_io(ctx):
                 bufty = node["e"]["ty"] if node["k"] == "Ref" else node["ty"]
                 ok = bufty == "[u8; 127]"
             obs.append(Ob("R-HDR-IO", fn, "exactly one read: read_exact into [u8; 127]", ok, "stream effects: %s; buffer type %s" % ([e.d["fn"].split("::")[-1] for e in effs], bufty), rel(f["loc"])))
+            if len(effs) == 1:
+                # the 127 bytes are taken from the caller's stream itself: a buffering wrapper around it would consume its read-ahead as well
+                direct = effs[0].d.get("direct")
+                obs.append(Ob("R-HDR-IO", fn, "the header is read from the given stream itself, not through a buffering wrapper", direct in set(fa.params.values()),
+                              "read_exact addresses %s" % ("the stream parameter" if direct in set(fa.params.values()) else "`%s`, a local wrapper" % fa.var_names.get(direct, direct)),
+                              effs[0].loc(), only=("C09", "C20")))
             parses = [e for e in p.events if e.kind == "call" and e.d["fn"] == "deku::DekuRead::read" and HDR in (e.d.get("resolved") or "")]
             ok_p = len(parses) == 1 and effs and any(t == unmut(effs[0].d["args"][1]) for t in subterms(unmut(parses[0].d["args"][0]))) if effs else False
             obs.append(Ob("R-HDR-IO", fn, "parses exactly the bytes read with Header's DekuRead", bool(ok_p), "parse calls: %d" % len(parses), rel(f["loc"])))
